@@ -508,6 +508,10 @@ Definition case_go (ev : expr -> res) (t : ty) (els : option expr) : list (expr 
         end)
     end.
 
+(* GREATEST/LEAST compare and return integers through float64 (greatest_least.go: selectedNum float64): exact up to 2^53;
+   beyond that the engine returns a rounded neighbour (a valid BIGINT, wrong value) and the model abstains *)
+Definition flt_exact (p q : Z) : bool := (Z.abs p <=? 2 ^ 53) && (Z.abs q <=? 2 ^ 53).
+
 (* an operand typed unsigned that holds a negative value (see the DIV rule) is outside the model: consumers abstain *)
 Definition bad_unsigned (t : ty) (x : val) : bool :=
   is_unsigned t && match x with VInt z => z <? 0 | VDec m _ => m <? 0 | _ => false end.
@@ -561,7 +565,7 @@ Fixpoint eval (e : expr) : res :=
       if negb (is_integer (type_of s a) && is_integer (type_of s b)) then Err else
       match x, y with
       | VNull, _ | _, VNull => Ok VNull
-      | VInt p, VInt q => fit I64 (Z.max p q)
+      | VInt p, VInt q => if flt_exact p q then fit I64 (Z.max p q) else Err
       | _, _ => Err
       end))
   | ELeast a b =>
@@ -569,7 +573,7 @@ Fixpoint eval (e : expr) : res :=
       if negb (is_integer (type_of s a) && is_integer (type_of s b)) then Err else
       match x, y with
       | VNull, _ | _, VNull => Ok VNull
-      | VInt p, VInt q => fit I64 (Z.min p q)
+      | VInt p, VInt q => if flt_exact p q then fit I64 (Z.min p q) else Err
       | _, _ => Err
       end))
   | ECast a t => bindr (eval a) (fun x => if bad_unsigned (type_of s a) x then Err else cast_val t x)
